@@ -16,6 +16,8 @@ RULE_TEXT = {
     "R-C11-c": "file-size and cursor arithmetic is done in unbounded Python ints (no fixed-width NumPy scalar operand)",
     "R-C11-d": "index word dtype = fit_dtype(max coordinate, common): narrowest by C19",
     "R-C11-e": "save is append-only and writes the fields in specification order on every path",
+    "R-C10-f": "the function that chooses the index word size (fit_dtype) is an exact ladder: every value reaches a dtype that contains it (imported from the C19 decision-tree analysis)",
+    "R-C11-f": "the function that chooses the index word size (fit_dtype) is an exact ladder: every value reaches a dtype that contains it, and no narrower one of the same signedness would (imported from the C19 decision-tree analysis)",
     "R-C12-a": "load: magic check -> version check -> size unpack -> mmap(16+size) dominate every return, in this order",
     "R-C12-b": "after the header every read goes through the mapped buffer (no f.read that could return short data)",
     "R-C12-c": "no exception handler in load swallows an error",
@@ -39,4 +41,22 @@ def run(prop, rules, level, declined, tier, floors, assumptions, trusted):
             counts[rule] = counts.get(rule, 0) + 1
     for r, n in floors.items():
         rep.floor(r, n, counts.get(r, 0))
+    # the index word size is whatever fit_dtype answers (R-C10-e / R-C11-d): wide enough (C10: the coordinates survive the
+    # round trip) and narrowest (C11: the bytes equal the documented layout) only if fit_dtype's ladder is exact - C19's
+    # decision-tree rules, imported so that an edit of fit_dtype is decided HERE too, not only in C19
+    import c19
+    want = {"C10": ("R-C10-f", ("R-C19-tree", "R-C19-coverage", "R-C19-contain", "R-C19-sign")),
+            "C11": ("R-C11-f", ("R-C19-tree", "R-C19-coverage", "R-C19-contain", "R-C19-sign", "R-C19-minimal"))}.get(prop)
+    if want:
+        rid, which = want
+        rep.rules[rid] = ("the function that chooses the index word size (fit_dtype) is an exact ladder: every value reaches a dtype that contains it%s (imported from the C19 decision-tree analysis)"
+                          % (", and no narrower one of the same signedness would" if prop == "C11" else ""))
+        sub = core.Report("C19", level="proof", rules=c19.RULES, tier=tier)
+        c19.analyse(prog, sub, False)
+        k = 0
+        for o in sub.obls:
+            if o.rule in which:
+                k += 1
+                rep.add(rid, o.where, "[%s] %s" % (o.rule, o.construct), o.status, o.detail, True, o.witness)
+        rep.floor(rid, 8, k)
     return rep.finish()
